@@ -21,7 +21,8 @@ def run(ctx):
     ctx.build_harness()
     tot = dict(cases=0, mismatches=0, routes={})
     samples = []
-    for module, cfg in (("GEN_PathData", "GEN_PathData_q" if quick else "GEN_PathData_t"), ("GEN_MdFile", "GEN_MdFile")):
+    for module, cfg in (("GEN_PathData", "GEN_PathData_q" if quick else "GEN_PathData_t"), ("GEN_MdFile", "GEN_MdFile"),
+                        ("GEN_PathGolden", "GEN_PathGolden")):     # long decimals next to float32 midpoints (nearest, proved with Big.tla)
         gen = os.path.join(ctx.tmp, module + ".out")
         g = ctx.tlc(module, cfg, timeout=3400, out_file=gen)
         if g["error"] or not g["finished"]:
@@ -30,7 +31,7 @@ def run(ctx):
         mis = os.path.join(ctx.tmp, module + ".mis")
         p, _ = ctx.run_harness(["replay-path", "-in", gen, "-out", mis], timeout=3000)
         s = deccheck.summary_of(p)
-        if s["cases"] < 500:
+        if s["cases"] < (5 if module == "GEN_PathGolden" else 500):
             raise vlib.Broken("too few generated cases from %s: %d" % (module, s["cases"]))
         tot["cases"] += s["cases"]
         tot["mismatches"] += s["mismatches"]
